@@ -57,6 +57,98 @@ fn c24_program(idx: usize, dsl: &str, o: &mut String) {
     writeln!(o, "}}").unwrap();
 }
 
+fn c26_program(idx: usize, dsl: &str, o: &mut String) {
+    let toks: Vec<&str> = dsl.split(',').collect();
+    writeln!(o, "pub fn c26_prog_{idx}(rx: RxStream, rx2: RxStream, out: Out) -> DfirErased {{").unwrap();
+    for (k, _) in toks.iter().enumerate() {
+        writeln!(o, "    #[allow(unused_variables)] let out{k} = out.clone();").unwrap();
+    }
+    let uses2 = toks.iter().any(|t| *t == "X" || *t == "Z");
+    writeln!(o, "    let df = dfir_rs::dfir_syntax! {{").unwrap();
+    writeln!(o, "        s0 = source_stream(rx);").unwrap();
+    if uses2 {
+        writeln!(o, "        src2 = source_stream(rx2);").unwrap();
+    }
+    let mut cur = "s0".to_string();
+    let mut loop_id = 0usize;
+    let mut k = 0usize;
+    while k < toks.len() {
+        let st = toks[k];
+        let next = format!("s{}", k + 1);
+        let (kind, arg) = st.split_at(1);
+        match kind {
+            "[" => {
+                let w = if arg == "b" { "batch" } else { "batch_lazy" };
+                writeln!(o, "        loop {{").unwrap();
+                writeln!(o, "        e{k} = {cur} -> {w}();").unwrap();
+                let mut inner = format!("e{k}");
+                if k + 1 < toks.len() && (toks[k + 1] == "X" || toks[k + 1] == "Z") {
+                    let w2 = if toks[k + 1] == "X" { "batch" } else { "batch_lazy" };
+                    writeln!(o, "        u{k} = union();").unwrap();
+                    writeln!(o, "        e{k} -> u{k};").unwrap();
+                    writeln!(o, "        src2 -> {w2}() -> u{k};").unwrap();
+                    inner = format!("u{k}");
+                    k += 1;
+                }
+                writeln!(o, "        m{k} = {inner} -> tee();").unwrap();
+                writeln!(
+                    o,
+                    "        m{k} -> fold::<'static>(|| 0u64, |a: &mut u64, _x: i64| *a += 1) -> for_each(|_c: u64| out{k}.borrow_mut().push(({}usize, context.current_tick().0, 1)));",
+                    100 + loop_id
+                )
+                .unwrap();
+                loop_id += 1;
+                let next = format!("s{}", k + 1);
+                writeln!(o, "        {next} = m{k} -> identity();").unwrap();
+                cur = next;
+            }
+            "]" => {
+                writeln!(o, "        }};").unwrap();
+                writeln!(o, "        {next} = {cur} -> all_iterations();").unwrap();
+                cur = next;
+            }
+            "D" => {
+                writeln!(o, "        {next} = {cur} -> defer_tick();").unwrap();
+                cur = next;
+            }
+            "L" => {
+                writeln!(o, "        {next} = {cur} -> defer_tick_lazy();").unwrap();
+                cur = next;
+            }
+            "M" => {
+                writeln!(o, "        {next} = {cur} -> map(|x: i64| x + {arg});").unwrap();
+                cur = next;
+            }
+            "T" => {
+                writeln!(
+                    o,
+                    "        {next} = {cur} -> inspect(|x: &i64| out{k}.borrow_mut().push(({arg}usize, context.current_tick().0, *x)));"
+                )
+                .unwrap();
+                cur = next;
+            }
+            "C" | "K" => {
+                let d = if kind == "C" { "defer_tick" } else { "defer_tick_lazy" };
+                writeln!(o, "        u{k} = union();").unwrap();
+                writeln!(o, "        {cur} -> u{k};").unwrap();
+                writeln!(o, "        t{k} = u{k} -> tee();").unwrap();
+                writeln!(o, "        t{k} -> filter(|x: &i64| *x < {arg}) -> map(|x: i64| x + 1) -> {d}() -> u{k};").unwrap();
+                writeln!(o, "        {next} = t{k} -> identity();").unwrap();
+                cur = next;
+            }
+            _ => panic!("bad stage {st}"),
+        }
+        k += 1;
+    }
+    writeln!(o, "        {cur} -> for_each(|_x: i64| {{}});").unwrap();
+    writeln!(o, "    }};").unwrap();
+    if !uses2 {
+        writeln!(o, "    let _ = rx2;").unwrap();
+    }
+    writeln!(o, "    df.into_erased()").unwrap();
+    writeln!(o, "}}").unwrap();
+}
+
 fn lines(path: &str) -> Vec<String> {
     println!("cargo:rerun-if-changed={path}");
     fs::read_to_string(path)
@@ -81,4 +173,16 @@ fn main() {
     }
     writeln!(o, "];").unwrap();
     fs::write(out_dir.join("c24_progs.rs"), o).unwrap();
+
+    let mut o = String::new();
+    let progs = lines("programs/c26.txt");
+    for (i, p) in progs.iter().enumerate() {
+        c26_program(i, p, &mut o);
+    }
+    writeln!(o, "pub static C26_PROGS: &[(&str, fn(RxStream, RxStream, Out) -> DfirErased)] = &[").unwrap();
+    for (i, p) in progs.iter().enumerate() {
+        writeln!(o, "    ({p:?}, c26_prog_{i}),").unwrap();
+    }
+    writeln!(o, "];").unwrap();
+    fs::write(out_dir.join("c26_progs.rs"), o).unwrap();
 }
